@@ -247,6 +247,16 @@ func runInvoke(raw json.RawMessage) interface{} {
 	// for the frame oracles: the real result of the immediate inner expression with the same Context
 	if in.Expr.E != nil && in.Expr.K != "stored" {
 		out["inner"] = invokeSafe((&builder{}).build(in.Expr.E), in.Ctx.toContext())
+		if in.Expr.K == "pfx" {
+			// the Prefix law: p+x is completed as p + completion of x. x is computed here from the typed
+			// word alone (ASCII case folding when matching is case-insensitive)
+			p, v := in.Expr.S, in.Ctx.Value
+			if len(v) >= len(p) && (v[:len(p)] == p || (in.Ctx.CI && strings.EqualFold(v[:len(p)], p))) {
+				c2 := in.Ctx
+				c2.Value = v[len(p):]
+				out["pfxInner"] = invokeSafe((&builder{}).build(in.Expr.E), c2.toContext())
+			}
+		}
 	}
 	return out
 }
@@ -274,10 +284,23 @@ func runHistory(raw json.RawMessage) interface{} {
 		b.table = append(b.table, b.build(x))
 	}
 	results := make([]xResult, 0, len(in.Steps))
-	for _, s := range in.Steps {
-		results = append(results, invokeSafe(b.table[s.E], s.Ctx.toContext()))
+	fresh := make([]xResult, 0, len(in.Steps))
+	ctxChanged := []int{}
+	for i, s := range in.Steps {
+		c := s.Ctx.toContext()
+		before := fmt.Sprintf("%q|%q|%q|%q|%q", c.Value, c.Args, c.Parts, c.Env, c.Dir)
+		results = append(results, invokeSafe(b.table[s.E], c))
+		if after := fmt.Sprintf("%q|%q|%q|%q|%q", c.Value, c.Args, c.Parts, c.Env, c.Dir); after != before {
+			ctxChanged = append(ctxChanged, i)
+		}
+		// the same expression built from scratch (fresh Go values), same Context: what a value would yield
+		fb := &builder{}
+		for _, x := range in.Table {
+			fb.table = append(fb.table, fb.build(x))
+		}
+		fresh = append(fresh, invokeSafe(fb.table[s.E], s.Ctx.toContext()))
 	}
-	return map[string]interface{}{"results": results}
+	return map[string]interface{}{"results": results, "fresh": fresh, "ctxChanged": ctxChanged}
 }
 
 // ---- op "repeat": byte-for-byte determinism of the formatted output (C10)
@@ -468,7 +491,70 @@ func genCtx(r *rng) xCtx {
 	return c
 }
 
+// values rich in dividers: prefixes of each other, trailing / leading / repeated dividers, empty segments
+func genMultiPartsCase(r *rng) invokeIn {
+	div := pick(r, []string{"/", "=", ",", ":", "::", "ab", ".", "->"})
+	ds := []string{div}
+	if r.chance(25) {
+		ds = append(ds, pick(r, []string{"=", ",", ":", "/"}))
+	}
+	seg := func() string { return pick(r, []string{"a", "b", "c", "ab", "", "x", "é", "a-", "-", ":"}) }
+	n := 1 + r.intn(5)
+	x := &xExpr{K: "values", Vs: [][3]string{}, Tag: pick(r, []string{"", "t1"})}
+	for i := 0; i < n; i++ {
+		k := 1 + r.intn(4)
+		parts := []string{}
+		for j := 0; j < k; j++ {
+			parts = append(parts, seg())
+		}
+		v := strings.Join(parts, pick(r, ds))
+		if r.chance(25) {
+			v += div
+		}
+		if v == "" {
+			v = "v"
+		}
+		x.Vs = append(x.Vs, [3]string{v, pick(r, []string{"", "d1", "desc " + v}), pick(r, []string{"", "red"})})
+	}
+	c := genCtx(r)
+	c.CI = false
+	switch r.intn(4) {
+	case 0:
+		c.Value = ""
+	case 1, 2:
+		v := []rune(pick(r, x.Vs)[0])
+		c.Value = string(v[:r.intn(len(v)+1)])
+	default:
+		c.Value = pick(r, x.Vs)[0]
+	}
+	return invokeIn{Expr: &xExpr{K: "multiParts", Xs: ds, E: x}, Ctx: c}
+}
+
+func swapCase(s string) string {
+	b := []byte(s)
+	for i, c := range b {
+		if c >= 'a' && c <= 'z' {
+			b[i] = c - 32
+		} else if c >= 'A' && c <= 'Z' {
+			b[i] = c + 32
+		}
+	}
+	return string(b)
+}
+
 func genInvoke(r *rng, tier string) interface{} {
+	if r.chance(15) {
+		return genMultiPartsCase(r)
+	}
+	if r.chance(6) {
+		// case-insensitive matching with a typed word that differs from a prefix only in case
+		p := pick(r, []string{"file://", "ab", "x=", "Pre"})
+		inner := genExpr(r, 2)
+		c := genCtx(r)
+		c.CI = true
+		c.Value = swapCase(p) + pick(r, []string{"", "a", "one,"})
+		return invokeIn{Expr: &xExpr{K: "pfx", S: p, E: inner}, Ctx: c}
+	}
 	if r.intn(40) == 0 {
 		// the empty divider only at top level (a panic inside a Batch goroutine cannot be recovered)
 		return invokeIn{Expr: &xExpr{K: pick(r, []string{"multiParts", "list"}), Xs: []string{""}, S: "", E: genLeaf(r)}, Ctx: genCtx(r)}
@@ -511,6 +597,22 @@ func genHistory(r *rng, tier string) interface{} {
 	for i := range ctxs {
 		ctxs[i].CI = false
 	}
+	if r.chance(15) {
+		// Context locality probe: a member edits its Context, its siblings and later steps must not see it
+		edits := []xEdit{{K: "setenv", S: "VERIF_X", V: "inner"}}
+		if r.chance(50) {
+			edits = append(edits, xEdit{K: "setArgs", Xs: []string{"edited"}}, xEdit{K: "setValue", S: "edited"})
+		}
+		probe := &xExpr{K: "batch", Es: []*xExpr{{K: "withCtx", Edits: edits, E: &xExpr{K: "echo"}}, {K: "echo"}}}
+		if r.chance(50) {
+			probe = &xExpr{K: "batch", Es: []*xExpr{{K: "echo"}, {K: "withCtx", Edits: edits, E: &xExpr{K: "echo"}}, {K: "sfx", S: "2", E: &xExpr{K: "echo"}}}}
+		}
+		in.Table = append(in.Table, probe)
+		n = len(in.Table)
+		for i := range ctxs {
+			ctxs[i].Env = []string{"OTHER=1", "VERIF_X=outer"}
+		}
+	}
 	steps := 2 + r.intn(5)
 	for i := 0; i < steps; i++ {
 		in.Steps = append(in.Steps, historyStep{E: r.intn(n), Ctx: pick(r, ctxs)})
@@ -529,6 +631,25 @@ func genRepeat(r *rng, tier string) interface{} {
 		return x
 	}
 	var e *xExpr
+	if r.chance(20) {
+		// several messages at once: the ERR entries must pair with the same message every time
+		e = &xExpr{K: "batch", Es: []*xExpr{{K: "message", M: "first message"}, {K: "message", M: "second message"}, {K: "message", M: "third"}, mk()}}
+		c := genCtx(r)
+		c.Value = ""
+		c.CI = false
+		return repeatIn{Expr: e, Ctx: c, Shell: pick(r, []string{"fish", "bash", "nushell", "bash-ble", "xonsh", "ion"}), N: 30}
+	}
+	if r.chance(8) {
+		// a large batch whose members produce equal values with different descriptions: last member wins
+		e = &xExpr{K: "batch", Es: []*xExpr{}}
+		for i := 0; i < 20; i++ {
+			e.Es = append(e.Es, &xExpr{K: "values", Vs: [][3]string{{pick(r, []string{"same", "same", "v" + itoa(i%3)}), "from member " + itoa(i), ""}}})
+		}
+		c := genCtx(r)
+		c.Value = ""
+		c.CI = false
+		return repeatIn{Expr: e, Ctx: c, Shell: pick(r, []string{"fish", "export", "elvish"}), N: 40}
+	}
 	switch r.intn(5) {
 	case 0:
 		e = &xExpr{K: "batch", Es: []*xExpr{mk(), mk(), {K: "sfx", S: "", E: mk()}}}
